@@ -642,6 +642,46 @@ pub fn c11_sweep(input: &str, cfg: &Cfg) -> Vec<String> {
     fails
 }
 
+/// C11 on a small program at EVERY wrap column from 4 to a few columns beyond its widest line at a generous width: the
+/// three clauses over all pairs of widths (same messages as `c11_wrap_column`, first failing pair of each clause)
+pub fn c11_full_sweep(input: &str, cfg: &Cfg) -> Vec<String> {
+    let width = |s: &str| s.split('\n').map(|l| l.trim_end_matches('\r').len()).max().unwrap_or(0);
+    let lines = |s: &str| s.matches('\n').count();
+    let mut wide = cfg.clone();
+    wide.wrap_column = 400;
+    let top = (width(&fmt(input, &wide)) + 4).min(160) as u32;
+    let ws: Vec<u32> = (4..=top).collect();
+    let outs: Vec<String> = ws
+        .iter()
+        .map(|w| {
+            let mut c = cfg.clone();
+            c.wrap_column = *w;
+            fmt(input, &c)
+        })
+        .collect();
+    let mut fails = vec![];
+    let (mut f1, mut f2, mut f3) = (false, false, false);
+    for j in 0..ws.len() {
+        let wj = width(&outs[j]);
+        for i in 0..j {
+            if !f1 && wj <= ws[i] as usize && outs[i] != outs[j] {
+                f1 = true;
+                fails.push(format!("c11: result for wrap_column={} fits in {} but the result for {} differs", ws[j], ws[i], ws[i]));
+            }
+            if !f2 && lines(&outs[j]) > lines(&outs[i]) {
+                f2 = true;
+                let overflow = if width(&outs[i]) > ws[i] as usize { " (the narrower result has lines that do not fit)" } else { "" };
+                fails.push(format!("c11: widening wrap_column from {} to {} increases the number of lines{}", ws[i], ws[j], overflow));
+            }
+            if !f3 && width(&outs[i]) <= ws[i] as usize && wj > ws[j] as usize {
+                f3 = true;
+                fails.push(format!("c11: every line fits at {} but not at {}", ws[i], ws[j]));
+            }
+        }
+    }
+    fails
+}
+
 /// value of a multi-line literal per the property text; None if it violates the indentation rule
 pub fn mls_value(lit: &str) -> Option<(Vec<String>, String)> {
     // split at \r\n, \n, \r
